@@ -507,6 +507,134 @@ class Comm:
             return [_pcopy(acc) for _ in p]
         return self._coll('allreduce', (op.name,), _pcopy(sendobj), complete)
 
+    # point-to-point (object and buffer) -------------------------------------------
+    # Standard-mode sends are modelled as buffered in 'eager' completion mode and as
+    # synchronous (return only when matched) in 'sync' mode; both are legal MPI
+    # behaviours, and a program that needs buffering deadlocks under the second.
+    def _post(self, dest, tag, payload, kind):
+        w = self._world
+        dest = int(dest)
+        if dest == PROC_NULL:
+            return None
+        if not 0 <= dest < len(self._members):
+            raise ValueError('invalid destination rank %d' % dest)
+        msg = dict(src=self._rank, tag=int(tag), payload=payload, kind=kind, matched=False)
+        w.mailbox.setdefault((self._cid, dest), []).append(msg)
+        w.notify(self._wrank)
+        return msg
+
+    def _match(self, source, tag, remove=True):
+        box = self._world.mailbox.get((self._cid, self._rank), [])
+        for i, m in enumerate(box):
+            if (source in (ANY_SOURCE, m['src'])) and (tag in (ANY_TAG, m['tag'])):
+                if remove:
+                    box.pop(i)
+                    m['matched'] = True
+                return m
+        return None
+
+    def _send_blocking(self, dest, tag, payload, kind, desc):
+        w = self._world
+        msg = self._post(dest, tag, payload, kind)
+        if msg is None:
+            return
+        if w.mode == 'sync':
+            w.wait_until(self._wrank, lambda: msg['matched'], ('send-wait', self._cid, int(dest), int(tag)))
+        else:
+            w.preempt(self._wrank, 'p2p', ('send', self._cid, int(dest), int(tag)))
+
+    def _recv_blocking(self, source, tag, desc):
+        w = self._world
+        found = {}
+
+        def pred():
+            if 'm' not in found:
+                m = self._match(source, tag)
+                if m is not None:
+                    found['m'] = m
+            return 'm' in found
+        w.wait_until(self._wrank, pred, ('recv', self._cid, int(source), int(tag)))
+        return found['m']
+
+    def send(self, obj, dest, tag=0):
+        self._send_blocking(dest, tag, _pcopy(obj), 'obj', 'send')
+
+    ssend = send
+    bsend = send
+
+    def recv(self, buf=None, source=ANY_SOURCE, tag=ANY_TAG, status=None):
+        if int(source) == PROC_NULL:
+            return None
+        m = self._recv_blocking(int(source), int(tag), 'recv')
+        if m['kind'] != 'obj':
+            raise Violation('buffer-mismatch', dict(op='recv', why='buffer message received with object recv'))
+        if status is not None:
+            status._set(m)
+        return m['payload']
+
+    def Send(self, buf, dest, tag=0):
+        b = parse_buf(buf)
+        self._send_blocking(dest, tag, (b.dt.name, b.bytes[:b.nbytes()].copy()), 'buf', 'Send')
+
+    Ssend = Send
+    Bsend = Send
+
+    def Recv(self, buf, source=ANY_SOURCE, tag=ANY_TAG, status=None):
+        if int(source) == PROC_NULL:
+            return
+        r = parse_buf(buf, writable=True)
+        m = self._recv_blocking(int(source), int(tag), 'Recv')
+        if m['kind'] != 'buf':
+            raise Violation('buffer-mismatch', dict(op='Recv', why='object message received with buffer Recv'))
+        name, data = m['payload']
+        if name != r.dt.name or data.size > r.nbytes():
+            raise Violation('buffer-mismatch', dict(op='Recv', sent=(name, int(data.size)),
+                                                    recv=(r.dt.name, int(r.nbytes()))))
+        r.bytes[:data.size] = data
+        if status is not None:
+            status._set(m)
+
+    def sendrecv(self, sendobj, dest, sendtag=0, recvbuf=None, source=ANY_SOURCE, recvtag=ANY_TAG, status=None):
+        self._post(dest, sendtag, _pcopy(sendobj), 'obj')
+        return self.recv(None, source, recvtag, status)
+
+    def Sendrecv(self, sendbuf, dest, sendtag=0, recvbuf=None, source=ANY_SOURCE, recvtag=ANY_TAG, status=None):
+        b = parse_buf(sendbuf)
+        self._post(dest, sendtag, (b.dt.name, b.bytes[:b.nbytes()].copy()), 'buf')
+        self.Recv(recvbuf, source, recvtag, status)
+
+    def isend(self, obj, dest, tag=0):
+        return Request(self, 'send', self._post(dest, tag, _pcopy(obj), 'obj'))
+
+    def Isend(self, buf, dest, tag=0):
+        b = parse_buf(buf)
+        return Request(self, 'send', self._post(dest, tag, (b.dt.name, b.bytes[:b.nbytes()].copy()), 'buf'))
+
+    def irecv(self, buf=None, source=ANY_SOURCE, tag=ANY_TAG):
+        return Request(self, 'recv', None, source=int(source), tag=int(tag))
+
+    def Irecv(self, buf, source=ANY_SOURCE, tag=ANY_TAG):
+        return Request(self, 'Recv', None, source=int(source), tag=int(tag), buf=buf)
+
+    def iprobe(self, source=ANY_SOURCE, tag=ANY_TAG, status=None):
+        self._world.preempt(self._wrank, 'p2p', ('iprobe', self._cid, int(source), int(tag)))
+        m = self._match(int(source), int(tag), remove=False)
+        if m is not None and status is not None:
+            status._set(m)
+        return m is not None
+
+    Iprobe = iprobe
+
+    def probe(self, source=ANY_SOURCE, tag=ANY_TAG, status=None):
+        self._world.wait_until(self._wrank, lambda: self._match(int(source), int(tag), remove=False) is not None,
+                               ('probe', self._cid, int(source), int(tag)))
+        m = self._match(int(source), int(tag), remove=False)
+        if status is not None:
+            status._set(m)
+        return True
+
+    Probe = probe
+
     # buffer collectives -----------------------------------------------------
     def Bcast(self, buf, root=0):
         root = self._check_root(root)
@@ -751,6 +879,90 @@ class Comm:
                 x[1].bytes[:x[1].nbytes()].view(x[1].dt.npdt)[:] = acc
             return None
         self._coll('Allreduce', (op.name,), (snap, r), complete)
+
+
+class Status:
+    def __init__(self):
+        self.source = ANY_SOURCE
+        self.tag = ANY_TAG
+        self.count = 0
+
+    def _set(self, m):
+        self.source = m['src']
+        self.tag = m['tag']
+        p = m['payload']
+        self.count = int(p[1].size) if m['kind'] == 'buf' else 0
+
+    def Get_source(self):
+        return self.source
+
+    def Get_tag(self):
+        return self.tag
+
+    def Get_count(self, datatype=BYTE):
+        return self.count // datatype.size
+
+
+class Request:
+    def __init__(self, comm, kind, msg, source=None, tag=None, buf=None):
+        self._comm = comm
+        self._kind = kind
+        self._msg = msg
+        self._source = source
+        self._tag = tag
+        self._buf = buf
+        self._done = False
+        self._result = None
+
+    def _complete_recv(self, status):
+        c = self._comm
+        if self._kind == 'recv':
+            self._result = c.recv(None, self._source, self._tag, status)
+        else:
+            c.Recv(self._buf, self._source, self._tag, status)
+        self._done = True
+
+    def wait(self, status=None):
+        if self._done:
+            return self._result
+        c = self._comm
+        if self._kind == 'send':
+            msg = self._msg
+            if msg is not None and c._world.mode == 'sync':
+                c._world.wait_until(c._wrank, lambda: msg['matched'], ('wait-send', c._cid))
+            else:
+                c._world.preempt(c._wrank, 'p2p', ('wait-send', c._cid))
+            self._done = True
+            return None
+        self._complete_recv(status)
+        return self._result
+
+    Wait = wait
+
+    def test(self, status=None):
+        c = self._comm
+        if self._done:
+            return (True, self._result)
+        c._world.preempt(c._wrank, 'p2p', ('test', c._cid))
+        if self._kind == 'send':
+            if self._msg is None or self._msg['matched'] or c._world.mode != 'sync':
+                self._done = True
+                return (True, None)
+            return (False, None)
+        if c._match(self._source, self._tag, remove=False) is not None:
+            self._complete_recv(status)
+            return (True, self._result)
+        return (False, None)
+
+    def Test(self, status=None):
+        return self.test(status)[0]
+
+    @staticmethod
+    def Waitall(requests, statuses=None):
+        for r in requests:
+            r.wait()
+
+    waitall = Waitall
 
 
 Intracomm = Comm
